@@ -188,20 +188,31 @@ func c16Selection(r *core.Run, p *core.Prog) {
 				return true
 			})
 			hz := rangeMutationHazards(p, f)
-			// any other removal idiom is accepted as long as it reassigns the result inside the negation loop without ranging over it
+			// second accepted idiom: an explicit filter loop over the whole result that keeps the entries != name
 			otherIdiom := false
 			core.Walk(negLoop.Body, false, func(x ast.Node) bool {
-				if a, ok := x.(*ast.AssignStmt); ok {
-					for _, l := range a.Lhs {
-						if core.ObjOf(info, l) == result && result != nil {
-							otherIdiom = true
+				rs, ok := x.(*ast.RangeStmt)
+				if !ok || core.ObjOf(info, rs.X) != result || rs.Value == nil {
+					return true
+				}
+				v := core.ObjOf(info, rs.Value)
+				core.Walk(rs.Body, false, func(y ast.Node) bool {
+					if ifs, ok := y.(*ast.IfStmt); ok {
+						if b, ok := core.BinOp(ifs.Cond, token.NEQ); ok && ((core.ObjOf(info, b.X) == v && core.ObjOf(info, b.Y) == negVar) || (core.ObjOf(info, b.Y) == v && core.ObjOf(info, b.X) == negVar)) {
+							core.Walk(ifs.Body, false, func(z ast.Node) bool {
+								if ap, ok := z.(*ast.CallExpr); ok && core.CallName(info, ap) == "builtin.append" && len(ap.Args) == 2 && core.ObjOf(info, ap.Args[1]) == v && core.ObjOf(info, ap.Args[0]) != result {
+									otherIdiom = true
+								}
+								return true
+							})
 						}
 					}
-				}
+					return true
+				})
 				return true
 			})
 			r.Check(rule, "parseIfaceList:negation-removes-every-occurrence", p.Rel(negLoop.Pos()), (okDel || otherIdiom) && len(hz) == 0,
-				"each negated name must be removed from the result by a predicate over the whole result (result = slices.DeleteFunc(result, func(v) { return v == name })); "+strings.Join(hz, "; "))
+				"each negated name must be removed from the whole result — recognised idioms: result = slices.DeleteFunc(result, func(v) { return v == name }), or a filter loop appending the entries != name to a fresh slice; removing by index (first occurrence only) leaves repeated names selected; "+strings.Join(hz, "; "))
 		}
 	}
 	if f := p.Func("pkg/types", "ValidateAndSeparateFilters"); f != nil {
